@@ -12,6 +12,10 @@
 //!   ctrr key iv chunks bufsizes           -> OK r,r,...                | ERR kind
 //!   cbc_rt cipher key iv writes cuts bufs -> OK hex   (write, cut the ciphertext, read until Ok(0);
 //!   ctr_rt cipher key iv writes cuts bufs -> OK hex    cipher = toy | aes | camellia)
+//!   csw type writes                       -> OK c:bytes,c:bytes,...   (ChunkStreamWriter::write call by call: the
+//!     returned count and the bytes that reached the writer below = the serialised chunks of that call; a write
+//!     item is "-" | hex | g<len>.<seed> (generated: byte i = (seed + i/97) mod 256, at most 2^20 bytes), and the
+//!     bytes emitted for a generated write are printed as #<length>.<FNV-1a 64>; model: Sinks.chunk_call_bytes)
 //! Library ops (public API, real ciphers and compressors; the model's answer is computed from
 //! the case's contents alone, i.e. the model of a round trip is the identity):
 //!   rt    writer codec level cipher mode kdf ckind clen cseed extra wpart rbufs -> OK len:fnv len:fnv ...
@@ -604,6 +608,45 @@ where
     })
 }
 
+// ------------------------------------------------------------------ ChunkStreamWriter call by call
+/// a write item of a `csw` case: "-" | hex | g<len>.<seed> -> (generated?, bytes); twin of StreamRun.write_item
+fn write_item(s: &str) -> Option<(bool, Vec<u8>)> {
+    if let Some(g) = s.strip_prefix('g') {
+        let (a, b) = g.split_once('.')?;
+        if a.is_empty() || b.is_empty() || !a.bytes().chain(b.bytes()).all(|x| x.is_ascii_digit()) {
+            return None;
+        }
+        let n: u128 = a.parse().ok()?;
+        let seed: u128 = b.parse().ok()?;
+        let n = n.min(1 << 20) as usize;
+        Some((true, (0..n).map(|i| ((seed + i as u128 / 97) % 256) as u8).collect()))
+    } else {
+        unhex_item(s).map(|d| (false, d))
+    }
+}
+/// an independent chunk parser: (type, payload) of back-to-back chunks, None unless lengths and CRCs are exact
+fn parse_chunks(mut b: &[u8]) -> Option<Vec<([u8; 4], Vec<u8>)>> {
+    let mut v = Vec::new();
+    while !b.is_empty() {
+        if b.len() < 12 {
+            return None;
+        }
+        let l = u32::from_be_bytes(b[..4].try_into().ok()?) as usize;
+        if b.len() < 12 + l {
+            return None;
+        }
+        let ty: [u8; 4] = b[4..8].try_into().ok()?;
+        let mut hsh = crc32fast::Hasher::new();
+        hsh.update(&b[4..8 + l]);
+        if hsh.finalize().to_be_bytes() != b[8 + l..12 + l] {
+            return None;
+        }
+        v.push((ty, b[8..8 + l].to_vec()));
+        b = &b[12 + l..];
+    }
+    Some(v)
+}
+
 // ------------------------------------------------------------------ run
 fn run(c: &Case, oracle: &mut Vec<String>) -> String {
     match c.op {
@@ -715,6 +758,51 @@ fn run(c: &Case, oracle: &mut Vec<String>) -> String {
                 Err(()) => oracle.push("cipher round trip panicked".to_string()),
             }
             show_res(r, |out| hex_item(&out))
+        }
+        "csw" => {
+            let ty = unhex_item(arg(c, 0)).unwrap_or_default();
+            let items: Option<Vec<(bool, Vec<u8>)>> =
+                if arg(c, 1).is_empty() { Some(Vec::new()) } else { arg(c, 1).split(',').map(write_item).collect() };
+            let (Ok(ty4), Some(items)) = (<[u8; 4]>::try_from(&ty[..]), items) else {
+                return "BADCASE".to_string();
+            };
+            let writes: Vec<Vec<u8>> = items.iter().map(|(_, d)| d.clone()).collect();
+            let ws = writes.clone();
+            let r = guard(move || h::chunk_stream_writes(ty4, &ws));
+            if let Ok(Ok(calls)) = &r {
+                // Write's contract, independent of the model: the chunks of a call carry exactly the bytes the call counts
+                for (i, ((n, bytes), w)) in calls.iter().zip(&writes).enumerate() {
+                    if *n > w.len() || (*n == 0 && !w.is_empty()) {
+                        oracle.push(format!("ChunkStreamWriter: write {i} of {} bytes returned {n}", w.len()));
+                        continue;
+                    }
+                    match parse_chunks(bytes) {
+                        Some(cs) => {
+                            if cs.iter().any(|(t, _)| *t != ty4) {
+                                oracle.push(format!("ChunkStreamWriter: write {i} emitted a chunk of another type"));
+                            }
+                            let carried: Vec<u8> = cs.iter().flat_map(|(_, d)| d.iter().copied()).collect();
+                            if carried != w[..*n] {
+                                oracle.push(format!(
+                                    "ChunkStreamWriter: write {i} returned {n} but its chunks carry {} bytes (or other bytes than the first {n} of the buffer)",
+                                    carried.len()
+                                ));
+                            }
+                        }
+                        None => oracle.push(format!("ChunkStreamWriter: write {i} emitted bytes that are not a sequence of chunks with correct length and CRC")),
+                    }
+                }
+            }
+            show_res(r, |calls| {
+                calls
+                    .iter()
+                    .zip(&items)
+                    .map(|((n, bytes), (g, _))| {
+                        if *g { format!("{}:#{}.{}", n, bytes.len(), fnv(bytes)) } else { format!("{}:{}", n, hex_item(bytes)) }
+                    })
+                    .collect::<Vec<_>>()
+                    .join(",")
+            })
         }
         "rt" => run_rt(c, oracle, false),
         "recut" => run_rt(c, oracle, true),
@@ -844,6 +932,9 @@ fn gen_sm(r: &mut Rng, prop: &str) -> String {
         &["flat_read", "flat_write", "cbcw", "cbcw", "cbcr", "cbcr", "ctrw", "ctrr", "cbc_rt", "cbc_rt", "ctr_rt"]
     };
     let op = *r.pick(ops);
+    gen_sm_op(r, op)
+}
+fn gen_sm_op(r: &mut Rng, op: &str) -> String {
     match op {
         "flat_read" => {
             let n = sm_len(r).min(400);
@@ -986,9 +1077,59 @@ fn gen_lib(r: &mut Rng, k: usize, recut: bool, big: bool) -> String {
     )
 }
 
+/// `csw`: a ChunkStreamWriter driven call by call; small writes of assorted lengths, empty writes in between
+fn gen_csw(r: &mut Rng) -> String {
+    let ty = *r.pick(&[b"FDAT", b"SDAT", b"FDAT", b"SDAT", b"xATR", b"zzZz", b"AEND"]);
+    let k = r.below(7) as usize;
+    let items: Vec<String> = (0..k)
+        .map(|_| match r.below(12) {
+            0 | 1 => "-".to_string(),
+            2 => format!("g{}.{}", *r.pick(&[0usize, 1, 96, 97, 98, 255, 256, 257, 1000, 4096, 5000]), r.below(300)),
+            3..=8 => {
+                let n = *r.pick(&[1usize, 1, 2, 3, 4, 7, 8, 15, 16, 17, 31, 32, 33]);
+                hex_item(&r.bytes(n))
+            }
+            _ => {
+                let n = r.range(0, 48) as usize;
+                hex_item(&r.bytes(n))
+            }
+        })
+        .collect();
+    format!("csw\t{}\t{}", hex(ty), items.join(","))
+}
+/// the `csw` cases of a run: one write at and just above 64 KiB and larger ones first (a writer that takes only part
+/// of a large buffer returns another count and emits other chunks), then `n` small ones
+fn gen_csw_block(r: &mut Rng, n: usize, thorough: bool) -> Vec<String> {
+    let mut v = vec![
+        "csw\t46444154\t-,616263,-".to_string(),
+        format!("csw\t46444154\tg65536.{},g65537.{}", r.below(256), r.below(256)),
+        format!("csw\t53444154\t0102,g70001.{},-,g131073.{},ff", r.below(256), r.below(256)),
+    ];
+    if thorough {
+        v.push(format!("csw\t46444154\tg1048576.{},g1.{}", r.below(256), r.below(256)));
+        v.push(format!("csw\t53444154\tg200000.{},g65535.{},g300001.{}", r.below(256), r.below(256), r.below(256)));
+    }
+    for _ in 0..n {
+        v.push(gen_csw(r));
+    }
+    v
+}
+
 fn gen(prop: &str, tier: &str, seed: u64) -> Vec<String> {
     let mut r = Rng::new(seed);
     let thorough = tier == "thorough";
+    // the sinks-only mixes (props/_stream.py step_sinks): C14 = the chunk sink call by call; C16 = that and the CTR
+    // writer / round trip state machines above it
+    if prop == "C14" || prop == "C16" {
+        let mut v = gen_csw_block(&mut r, if thorough { 4000 } else { 120 }, thorough);
+        if prop == "C16" {
+            for _ in 0..(if thorough { 6000 } else { 200 }) {
+                let op = *r.pick(&["ctrw", "ctrw", "ctr_rt"]);
+                v.push(gen_sm_op(&mut r, op));
+            }
+        }
+        return v;
+    }
     // (rt, recut, state machines)
     let (n_rt, n_recut, n_sm) = match (prop, thorough) {
         ("C03", false) => (60, 340, 3000),
@@ -1010,6 +1151,9 @@ fn gen(prop: &str, tier: &str, seed: u64) -> Vec<String> {
     v.push("flat_read\t616263,-,646566\t0,2,0,10,10,10".to_string());
     // D9: 16-byte key handed to the CBC reader
     v.push(format!("cbcr\t{}\t{}\t{}\t16,16", "00".repeat(16), "00".repeat(16), "11".repeat(16)));
+    // ChunkStreamWriter call by call (count and emitted chunks of every write)
+    let mut rc = Rng::new(seed ^ 0x6373_7700);
+    v.extend(gen_csw_block(&mut rc, if thorough { 2000 } else { 60 }, thorough));
     let mut k = r.below(500) as usize;
     for _ in 0..n_rt {
         v.push(gen_lib(&mut r, k, false, false));
